@@ -58,6 +58,32 @@ def node_schema(node):
         return s
     if k == "alias":
         return ref(node[1])
+    if k == "ntobj":
+        # an object schema carrying an allow list: typify renders a constrained newtype around an inner struct; the listed values
+        # do not use the (optional) referring members
+        props = {"label": {"type": "string"}}
+        for i, (ek, t) in enumerate(node[1]):
+            props["e%d" % i] = member_schema(ek, t)
+        return {"type": "object", "properties": props, "enum": [{"label": "a"}, {"label": "b"}]}
+    if k in ("enum_int", "enum_adj", "enum_unt"):
+        subs = []
+        for i, (ek, t) in enumerate(node[1]):
+            body = ({"type": "object", "properties": {"x": ref(t)}, "required": ["x"]} if ek == "sreq"
+                    else {"type": "object", "properties": {"x": ref(t), "y": INT}, "required": ["y"]})
+            tag = {"type": "string", "enum": ["V%d" % i]}
+            if k == "enum_int":
+                v = {"type": "object", "properties": dict(body["properties"], t=tag), "required": ["t"] + body["required"]}
+            elif k == "enum_adj":
+                v = {"type": "object", "properties": {"t": tag, "c": body}, "required": ["t", "c"]}
+            else:
+                v = dict(body, additionalProperties=False)
+            subs.append(v)
+        if k == "enum_unt":
+            subs.append({"type": "null"})
+        else:
+            tagu = {"type": "string", "enum": ["U"]}
+            subs.append({"type": "object", "properties": {"t": tagu}, "required": ["t"]})
+        return {"oneOf": subs}
     if k == "enum":
         subs = [{"type": "string", "enum": ["U"]}]
         for i, (ek, t) in enumerate(node[1]):
@@ -77,7 +103,7 @@ def node_schema(node):
 
 def node_edges(node):
     """(target, by_value?) for the independent input-graph analysis"""
-    if node[0] == "struct":
+    if node[0] in ("struct", "ntobj"):
         return [(t, ek in BYVAL) for ek, t in node[1]]
     if node[0] == "alias":
         return [(node[1], True)]
@@ -100,6 +126,10 @@ def node_options(n, reduced=False, max_edges=2):
         for combo in itertools.combinations_with_replacement(se, m):
             out.append(("struct", tuple(combo)))
     out += [("alias", t) for t in range(n)]
+    # one-edge nodes of the other container kinds: allow-listed object (newtype around a struct; optional / heap members only, the
+    # listed values cannot mention the referring member) and internally / adjacently tagged and untagged enums with a struct variant
+    out += [("ntobj", ((k, t),)) for k in ("opt", "nullable", "vec") for t in range(n)]
+    out += [(ek, ((k, t),)) for ek in ("enum_int", "enum_adj", "enum_unt") for k in ("sreq", "sopt") for t in range(n)]
     ee = [(k, t) for k in EKINDS for t in range(n)]
     for m in range(1, max_edges + 1):
         for combo in itertools.combinations_with_replacement(ee, m):
@@ -309,6 +339,10 @@ def execute(cases_, tier, seed):
     if tier == "quick":
         comp_cases = comp_cases[:80]
     placed = [{"id": "graph-" + c["key"], "doc": c["doc"], "target": "D0", "case": c} for c in comp_cases]
+    for p in placed:
+        if any(nd[0] == "ntobj" for nd in p["case"]["nodes"]):
+            # allow-listed objects only compile when the inner struct derives PartialEq (C01-KF10, unrelated to recursion): add that derive here
+            p["settings"] = {"struct_builder": False, "derives": ["PartialEq"]}
     n_rt = 0
     if placed:
         wcs = wire.run([{k: v for k, v in p.items() if k != "case"} for p in placed], {"struct_builder": False},
